@@ -271,12 +271,12 @@ def step (i : Ins) (s : State) : Option State :=
       | _ => none
   | .set c d =>
       match s.flags, width d with
-      | some f, some .b => write s d (if ccHolds f c then 1#64 else 0#64)
+      | some f, some .b => write s d ((BitVec.ofBool (ccHolds f c)).setWidth 64)
       | _, _ => none
   | .cmovne d src =>
       match s.flags with
       | none => none
-      | some f => if sameWidth d src then write s d (if ccHolds f .ne then read s src else read s d) else none
+      | some f => if sameWidth d src then write s d (bif ccHolds f .ne then read s src else read s d) else none
   | .lzcnt d src => if sameWidth d src then
       (width d).bind fun w => (cntW (fun x => x.clz) w (read s src)).bind fun v => (write s d v).map fun s1 => { s1 with flags := none }
       else none
